@@ -17,7 +17,7 @@ _c("set_meter",
    params={"self": "Bar", "meter": "(int,int)"}, returns="None",
    ensures=[("meter-stored", "self.meter == (meter[0], meter[1])"),
             ("length-is-count-over-unit", "(meter == (0, 0) and self.length == 0) or "
-                                          "(is_pow2(meter[1]) and feq(self.length * meter[1], meter[0]))")],
+                                          "(is_pow2(meter[1]) and feq(self.length, meter[0] / meter[1]))")],
    raises={"MeterFormatError": "not (is_pow2(meter[1]) or (meter[0] == 0 and meter[1] == 0))"},
    modifies=["param:self"], havoc={"self.meter": "(int,int)", "self.length": "real"},
    battery="bar_meter")
